@@ -289,7 +289,11 @@ static std::vector<std::string> g_patterns;
 static std::vector<std::string> g_pattern_names;
 static std::string g_dh_hit;
 static long g_dh_frees = 0;
-static void *ossl_malloc(size_t n, const char *, int) { return malloc(n); }
+static long g_ossl_allocs = 0, g_ossl_fail_at = -1;
+static void *ossl_malloc(size_t n, const char *, int) {
+  if (g_dh_watch && ++g_ossl_allocs == g_ossl_fail_at) return nullptr;  // injected failure: the computation must fail and still wipe
+  return malloc(n);
+}
 static void *ossl_realloc(void *p, size_t n, const char *, int) {
   if (g_dh_watch && p) {
     size_t sz = malloc_usable_size(p);
@@ -346,17 +350,28 @@ static Outcome run_dh(const Case &c) {
   g_entropy = blind;
   g_dh_hit.clear();
   g_dh_frees = 0;
+  // failure injection: the entropy source fails, or the k-th OpenSSL allocation of the call fails
+  int fmode = (int)(((A(6) % 3) + 3) % 3);
+  g_entropy_fail = fmode == 1;
+  g_ossl_allocs = 0;
+  g_ossl_fail_at = fmode == 2 ? 1 + (long)(((A(7) % 60) + 60) % 60) : -1;
   uint8_t out[256];
   g_dh_watch = true;
   int rc = what == 0 ? shim_dh_generate_pub(out, (const uint8_t *)priv.data()) : shim_dh_compute((const uint8_t *)peer.data(), (const uint8_t *)priv.data(), out);
   g_dh_watch = false;
-  if (rc != 0)
-    o.fail("dh-failed", "crypto_dh call failed");
+  g_entropy_fail = false;
+  bool injected = fmode == 1 || (fmode == 2 && g_ossl_allocs >= g_ossl_fail_at);
+  g_ossl_fail_at = -1;
+  if (rc != 0) o.cls(fmode == 1 ? "failed-entropy" : "failed-openssl-allocation");
+  if (rc != 0 && !injected)
+    o.fail("dh-failed", "crypto_dh call failed although nothing was made to fail");
+  else if (rc == 0 && fmode == 1)
+    o.fail("dh-ignored-entropy-failure", "crypto_dh call succeeded although the entropy source failed");
   else if (!g_dh_hit.empty())
     o.fail("dh-secret-in-freed-memory", std::string(what ? "crypto_dh_compute" : "crypto_dh_generate_pub") + ": a buffer released by OpenSSL still held the " + g_dh_hit);
-  else if (g_dh_frees < 5)
+  else if (g_dh_frees < 5 && rc == 0)
     o.fail("dh-harness", "OpenSSL memory hooks saw no frees: the hook is not installed");
-  o.nontrivial = rc == 0;
+  o.nontrivial = rc == 0 || injected;
   o.cls(what ? "compute" : "generate_pub");
   o.counters["openssl_frees_inspected"] = (uint64_t)g_dh_frees;
   return o;
@@ -365,7 +380,7 @@ static rc::Gen<Case> gen_dh(int) {
   return rc::gen::exec([]() {
     Case c;
     c.push_back(Op("dh", {*rc::gen::weightedElement<int>({{5, 0}, {1, 1}, {1, 2}, {1, 3}}), *rc::gen::arbitrary<int>(), *rc::gen::weightedElement<int>({{5, 0}, {1, 1}, {1, 2}, {1, 3}}),
-                          *rc::gen::arbitrary<int>(), *range<int>(0, 1), *rc::gen::arbitrary<int>()}));
+                          *rc::gen::arbitrary<int>(), *range<int>(0, 1), *rc::gen::arbitrary<int>(), *rc::gen::weightedElement<int>({{5, 0}, {1, 1}, {3, 2}}), *range<int>(0, 59)}));
     return c;
   });
 }
@@ -466,7 +481,8 @@ int main(int argc, char **argv) {
   subs.push_back({"dh",
                   "crypto_dh_generate_pub / crypto_dh_compute with generated private exponents (incl. leading zeros, all-ones) and scripted blinding values; every "
                   "buffer OpenSSL frees or reallocates during the call (CRYPTO_set_mem_functions) is searched for the 32-byte private exponent, blinding value and "
-                  "blinded exponent in big-endian and limb order. Non-trivial: the computation completed",
+                  "blinded exponent in big-endian and limb order; one case in two also makes the entropy source or the k-th OpenSSL allocation (k = 1..60) fail, so the "
+                  "failing computations' releases are inspected too. Non-trivial: the computation completed or failed because of an injected failure",
                   gen_dh, run_dh});
   subs.push_back({"awskeys",
                   "key files that fail after the secret line was read (duplicate secret, junk line, unknown key, duplicate id, missing id, missing final EOL) and valid "
